@@ -55,162 +55,329 @@ func (ex *Exec) noteAssumption(s string) {
 	}
 }
 
-// ---- diamond merging ----
+// ---- region merging ----
+//
+// At a branch on a symbolic condition the executor first tries to evaluate
+// the whole single-entry region up to the branch block's immediate
+// post-dominator (or up to the function's returns) *speculatively*: every
+// mini-path through the region is run with its own copy of the frame's
+// registers, nothing may be written except to objects allocated inside the
+// region, no solver query is made and nothing may fork. If that succeeds the
+// join's phis (or the return value) become ite terms over the mini-path
+// conditions - exact, because the conditions are exclusive and exhaustive and
+// the region has no effects. Otherwise everything is rolled back and the
+// branch forks as usual.
 
 type specAbort struct{}
 
-type mergeResult struct {
-	join *ssa.BasicBlock
-	prev *ssa.BasicBlock
+type mergeOutcome struct {
+	join     *ssa.BasicBlock
+	returned bool
+	ret      Value
 }
 
-// pureInstr reports whether an instruction may be executed speculatively.
-func pureInstr(in ssa.Instruction) bool {
-	switch x := in.(type) {
-	case *ssa.BinOp:
-		switch x.Op {
-		case token.QUO, token.REM, token.SHL, token.SHR:
-			return false
+type miniPath struct {
+	cond *Term
+	vals []Value // phi inputs at the join, or {ret}
+}
+
+type specItem struct {
+	block *ssa.BasicBlock
+	prev  *ssa.BasicBlock
+	cond  *Term
+	env   []Value
+}
+
+const (
+	specMaxBlocks = 600
+	specMaxPaths  = 48
+)
+
+// ipdomOf computes immediate post-dominators (index -1 = virtual exit,
+// -2 = none) once per function.
+func (fi *fnInfo) ipdomOf(fn *ssa.Function) []int {
+	if fi.ipdom != nil {
+		return fi.ipdom
+	}
+	n := len(fn.Blocks)
+	// pdom sets as bitsets over n+1 nodes (n = virtual exit)
+	words := (n + 1 + 63) / 64
+	full := make([]uint64, words)
+	for i := 0; i <= n; i++ {
+		full[i/64] |= 1 << uint(i%64)
+	}
+	pd := make([][]uint64, n+1)
+	for i := range pd {
+		pd[i] = append([]uint64{}, full...)
+	}
+	pd[n] = make([]uint64, words)
+	pd[n][n/64] |= 1 << uint(n%64)
+	succs := func(i int) []int {
+		b := fn.Blocks[i]
+		if len(b.Succs) == 0 {
+			return []int{n}
 		}
-		return true
-	case *ssa.UnOp:
-		return x.Op != token.ARROW
-	case *ssa.Convert, *ssa.ChangeType, *ssa.ChangeInterface, *ssa.Extract, *ssa.Field, *ssa.FieldAddr,
-		*ssa.MakeInterface, *ssa.Phi, *ssa.IndexAddr, *ssa.Index, *ssa.Slice, *ssa.DebugRef:
-		return true
-	case *ssa.Call:
-		if b, ok := x.Call.Value.(*ssa.Builtin); ok {
-			switch b.Name() {
-			case "len", "cap", "min", "max":
-				return true
+		out := make([]int, len(b.Succs))
+		for k, s := range b.Succs {
+			out[k] = s.Index
+		}
+		return out
+	}
+	changed := true
+	for changed {
+		changed = false
+		for i := n - 1; i >= 0; i-- {
+			nw := append([]uint64{}, full...)
+			for _, s := range succs(i) {
+				for w := range nw {
+					nw[w] &= pd[s][w]
+				}
+			}
+			nw[i/64] |= 1 << uint(i%64)
+			for w := range nw {
+				if nw[w] != pd[i][w] {
+					changed = true
+				}
+			}
+			pd[i] = nw
+		}
+	}
+	count := func(bs []uint64) int {
+		c := 0
+		for _, w := range bs {
+			for ; w != 0; w &= w - 1 {
+				c++
 			}
 		}
-		return false
+		return c
 	}
-	return false
+	ip := make([]int, n)
+	for i := 0; i < n; i++ {
+		ip[i] = -2
+		want := count(pd[i]) - 1
+		if want <= 0 || want > n {
+			continue
+		}
+		for d := 0; d <= n; d++ {
+			if d == i || pd[i][d/64]&(1<<uint(d%64)) == 0 {
+				continue
+			}
+			if count(pd[d]) == want {
+				if d == n {
+					ip[i] = -1
+				} else {
+					ip[i] = d
+				}
+				break
+			}
+		}
+	}
+	fi.ipdom = ip
+	return ip
 }
 
-// tryMerge handles   if c { pure } else { pure } -> join   (and triangles)
-// by evaluating both arms and turning the join's phis into ite terms.
-func (ex *Exec) tryMerge(fr *frame, block *ssa.BasicBlock, c *Term) (mergeResult, bool) {
+func (ex *Exec) tryMerge(fr *frame, block *ssa.BasicBlock, c *Term) (mergeOutcome, bool) {
 	if ex.H != nil && ex.H.NoMerge {
-		return mergeResult{}, false
+		return mergeOutcome{}, false
 	}
-	t, e := block.Succs[0], block.Succs[1]
+	ip := fr.info.ipdomOf(fr.fn)[block.Index]
+	if ip == -2 {
+		return mergeOutcome{}, false
+	}
 	var join *ssa.BasicBlock
-	var arms [2]*ssa.BasicBlock // nil = direct edge
-	armOK := func(b *ssa.BasicBlock) bool {
-		if len(b.Preds) != 1 || len(b.Succs) != 1 {
-			return false
-		}
-		for _, in := range b.Instrs[:len(b.Instrs)-1] {
-			if !pureInstr(in) {
-				return false
-			}
-		}
-		_, isJump := b.Instrs[len(b.Instrs)-1].(*ssa.Jump)
-		return isJump
+	if ip >= 0 {
+		join = fr.fn.Blocks[ip]
 	}
-	switch {
-	case armOK(t) && armOK(e) && t.Succs[0] == e.Succs[0]:
-		join = t.Succs[0]
-		arms = [2]*ssa.BasicBlock{t, e}
-	case armOK(t) && t.Succs[0] == e:
-		join = e
-		arms = [2]*ssa.BasicBlock{t, nil}
-	case armOK(e) && e.Succs[0] == t:
-		join = t
-		arms = [2]*ssa.BasicBlock{nil, e}
-	default:
-		return mergeResult{}, false
+	key := mergeKey{fr.fn, block.Index}
+	if ex.mergeFail[key] >= 3 {
+		return mergeOutcome{}, false
 	}
-	if join == block || len(join.Preds) < 2 {
-		return mergeResult{}, false
+	saveEnv := fr.env
+	saveDefers := len(fr.defers)
+	saveLocks, saveMaxLocks := ex.locksHeld, ex.maxLocks
+	saveDepth := ex.depth
+	saveCur := ex.curFrame
+	outer := ex.speculating == 0
+	if outer {
+		ex.specWatermark = ex.objSeq
 	}
-	// the join's phis must be mergeable; evaluate arms speculatively
-	saveEnv := make([]Value, len(fr.env))
-	copy(saveEnv, fr.env)
-	savePC := len(ex.pc)
-	saveUndo := len(ex.undo)
+	var paths []miniPath
 	ok := true
-	var phiIn [2][]Value
 	func() {
 		ex.speculating++
 		defer func() {
 			ex.speculating--
 			if r := recover(); r != nil {
-				if _, isSpec := r.(specAbort); isSpec {
+				switch r.(type) {
+				case specAbort, pathAbort:
 					ok = false
-					return
+				default:
+					fr.env = saveEnv
+					panic(r)
 				}
-				if _, isAbort := r.(pathAbort); isAbort {
-					ok = false
-					return
-				}
-				panic(r)
 			}
 		}()
-		for k := 0; k < 2; k++ {
-			from := block
-			if arms[k] != nil {
-				from = arms[k]
-				// path condition for the arm, so nested feasibility folding is right
-				if k == 0 {
-					ex.pc = append(ex.pc, c)
-				} else {
-					ex.pc = append(ex.pc, ex.C.Not(c))
+		blocks := 0
+		cp := func(e []Value) []Value { return append([]Value(nil), e...) }
+		stack := []specItem{
+			{block.Succs[1], block, ex.C.Not(c), cp(saveEnv)},
+			{block.Succs[0], block, c, cp(saveEnv)},
+		}
+		for len(stack) > 0 {
+			it := stack[len(stack)-1]
+			stack = stack[:len(stack)-1]
+			b, prev, cond, env := it.block, it.prev, it.cond, it.env
+			for {
+				fr.env = env
+				if b == join {
+					// collect phi inputs
+					predIdx := -1
+					for i, p := range b.Preds {
+						if p == prev {
+							predIdx = i
+							break
+						}
+					}
+					var vals []Value
+					for _, in := range b.Instrs {
+						phi, isPhi := in.(*ssa.Phi)
+						if !isPhi {
+							break
+						}
+						vals = append(vals, ex.get(fr, phi.Edges[predIdx]))
+					}
+					paths = append(paths, miniPath{cond, vals})
+					break
 				}
-				for _, in := range arms[k].Instrs[:len(arms[k].Instrs)-1] {
-					if pan := ex.step(fr, in); pan != nil {
-						panic(specAbort{})
+				blocks++
+				if blocks > specMaxBlocks || len(paths)+len(stack) > specMaxPaths {
+					panic(specAbort{})
+				}
+				// phis
+				i := 0
+				predIdx := -1
+				for k, p := range b.Preds {
+					if p == prev {
+						predIdx = k
+						break
 					}
 				}
-				ex.pc = ex.pc[:savePC]
-			}
-			predIdx := -1
-			for i, p := range join.Preds {
-				if p == from {
-					predIdx = i
+				var phiVals []Value
+				for ; i < len(b.Instrs); i++ {
+					phi, isPhi := b.Instrs[i].(*ssa.Phi)
+					if !isPhi {
+						break
+					}
+					phiVals = append(phiVals, ex.get(fr, phi.Edges[predIdx]))
+				}
+				for k, v := range phiVals {
+					env[fr.info.slots[b.Instrs[k].(*ssa.Phi)]] = v
+				}
+				var next *ssa.BasicBlock
+				ended := false
+				for ; i < len(b.Instrs); i++ {
+					in := b.Instrs[i]
+					ex.steps++
+					if ex.steps > ex.H.MaxSteps {
+						panic(engineErr("step budget exceeded (%d) in %s", ex.H.MaxSteps, fr.fn))
+					}
+					switch x := in.(type) {
+					case *ssa.Jump:
+						next = b.Succs[0]
+					case *ssa.If:
+						cc := ex.get(fr, x.Cond).(*Term)
+						if cc.IsConst() {
+							if cc.Val != 0 {
+								next = b.Succs[0]
+							} else {
+								next = b.Succs[1]
+							}
+						} else {
+							ct, cf := ex.C.And(cond, cc), ex.C.And(cond, ex.C.Not(cc))
+							switch {
+							case ct.IsConst() && ct.Val == 0:
+								next = b.Succs[1]
+							case cf.IsConst() && cf.Val == 0:
+								next = b.Succs[0]
+							default:
+								stack = append(stack, specItem{b.Succs[1], b, cf, cp(env)})
+								cond = ct
+								next = b.Succs[0]
+							}
+						}
+					case *ssa.Return:
+						if join != nil {
+							panic(specAbort{})
+						}
+						var ret Value
+						switch len(x.Results) {
+						case 0:
+						case 1:
+							ret = ex.get(fr, x.Results[0])
+						default:
+							tv := make(Tuple, len(x.Results))
+							for k, r := range x.Results {
+								tv[k] = ex.get(fr, r)
+							}
+							ret = tv
+						}
+						paths = append(paths, miniPath{cond, []Value{ret}})
+						ended = true
+					case *ssa.Panic, *ssa.RunDefers, *ssa.Defer, *ssa.Go, *ssa.Send, *ssa.Select:
+						panic(specAbort{})
+					default:
+						if pan := ex.step(fr, in); pan != nil {
+							panic(specAbort{})
+						}
+					}
+					if next != nil || ended {
+						break
+					}
+				}
+				if ended {
 					break
 				}
-			}
-			if predIdx < 0 {
-				panic(specAbort{})
-			}
-			for _, in := range join.Instrs {
-				phi, isPhi := in.(*ssa.Phi)
-				if !isPhi {
-					break
-				}
-				phiIn[k] = append(phiIn[k], ex.get(fr, phi.Edges[predIdx]))
+				prev, b = b, next
 			}
 		}
 	}()
-	ex.pc = ex.pc[:savePC]
-	if len(ex.undo) != saveUndo {
-		ok = false
+	fr.env = saveEnv
+	fr.defers = fr.defers[:saveDefers]
+	ex.locksHeld, ex.maxLocks = saveLocks, saveMaxLocks
+	ex.depth = saveDepth
+	ex.curFrame = saveCur
+	if !ok || len(paths) == 0 {
+		ex.mergeFail[key]++
+		return mergeOutcome{}, false
 	}
-	if ok {
-		// merge
-		merged := make([]Value, len(phiIn[0]))
-		for i := range merged {
-			m, mok := ex.merge(c, phiIn[0][i], phiIn[1][i])
+	// merge the mini-path results (conditions are exclusive and exhaustive)
+	nv := len(paths[0].vals)
+	merged := make([]Value, nv)
+	for k := 0; k < nv; k++ {
+		acc := paths[len(paths)-1].vals[k]
+		for i := len(paths) - 2; i >= 0; i-- {
+			m, mok := ex.merge(paths[i].cond, paths[i].vals[k], acc)
 			if !mok {
-				ok = false
-				break
+				ex.mergeFail[key]++
+				return mergeOutcome{}, false
 			}
-			merged[i] = m
+			acc = m
 		}
-		if ok {
-			for i, m := range merged {
-				fr.env[fr.info.slots[join.Instrs[i].(*ssa.Phi)]] = m
-			}
-			ex.St.MergedBranch++
-			return mergeResult{join: join}, true
-		}
+		merged[k] = acc
 	}
-	copy(fr.env, saveEnv)
-	return mergeResult{}, false
+	ex.St.MergedBranch++
+	if join == nil {
+		return mergeOutcome{returned: true, ret: merged[0]}, true
+	}
+	for k, m := range merged {
+		fr.env[fr.info.slots[join.Instrs[k].(*ssa.Phi)]] = m
+	}
+	return mergeOutcome{join: join}, true
+}
+
+type mergeKey struct {
+	fn    *ssa.Function
+	block int
 }
 
 // ---- indexing / slicing ----
